@@ -40,7 +40,8 @@ vars == <<prog, fi, ci, ph, cur, diags, seenT>>
 Kinds  == {"ctor1", "ctor2", "other", "pmeth", "ometh", "init", "pkgvar", "pkgdecl"}
 Stmts  == {"lit", "addrLit", "elidedVal", "elidedPtr", "elidedMap", "new", "varZero", "varPtr", "varBlank", "onU", "litOT", "litTG",   \* litOT: a literal of o.T, an un-annotated type of another package that is also called T   \* litTG: a literal of d.TG, the undocumented spec after T in its type group
            "lit2", "new2", "varZero2", "nestNewInLit2",   \* d.T2{In: new(d.T)}: an instantiation of T inside a (reported) literal of T2
-           "litRec", "newRec", "varRec"}   \* on d.Rec, an exported alias of the unexported type rec with `@constructor newRec` (iff T is annotated)   \* the same on T2, a second type of d with `@constructor NewT2` (iff T is annotated)
+           "litRec", "newRec", "varRec",
+           "varGroup"}   \* `v T` as a later spec of a `var ( ... )` group whose first spec is initialised with a function literal that declares a constant   \* on d.Rec, an exported alias of the unexported type rec with `@constructor newRec` (iff T is annotated)   \* the same on T2, a second type of d with `@constructor NewT2` (iff T is annotated)
 Nests  == {"none", "if", "else", "for", "range", "switch", "select", "funclit", "defer", "go", "label",
            "funcassign", "funcvar", "funcarg", "funcfield", "block", "ifinit", "typeswitch"}
 Spells == {"direct", "alias", "alias3", "chain", "ptralias", "rename", "paren"}   \* ptralias: type TP = *T, only for `var v TP` (a nil pointer, no instance)
@@ -54,7 +55,8 @@ Cont(k, s, n, sp) == [kind |-> k, stmt |-> s, nest |-> n, sp |-> sp]
 
 Valid(c, pkg) ==
   /\ (c.kind = "pmeth" => pkg = "d")
-  /\ (c.kind = "pkgdecl" => c.stmt \in {"lit", "addrLit", "new", "varZero", "varPtr", "elidedVal"} /\ c.nest = "none")
+  /\ (c.kind = "pkgdecl" => c.stmt \in {"lit", "addrLit", "new", "varZero", "varPtr", "elidedVal", "varGroup"} /\ c.nest = "none")
+  /\ (c.stmt = "varGroup" => c.nest = "none" /\ c.sp = "direct")
   /\ (c.stmt \in {"lit2", "new2", "varZero2", "nestNewInLit2", "litRec", "newRec", "varRec"} => c.sp = "direct")
   /\ (c.stmt = "onU" => c.sp \in {"direct", "fnalias"})
   /\ (c.stmt = "litTG" => c.sp = "direct")
@@ -68,7 +70,7 @@ FnName(c) == CASE c.kind = "ctor1" -> "NewT" [] c.kind = "ctor2" -> "MakeT" [] c
                [] c.kind \in {"pkgvar", "pkgdecl"} -> "" [] OTHER -> "fn"
 
 CtorCode(s) == CASE s \in {"lit", "addrLit", "elidedVal", "elidedPtr", "elidedMap", "lit2", "nestNewInLit2", "litRec"} -> "CTOR01"
-                 [] s \in {"new", "new2", "newRec"} -> "CTOR02" [] s \in {"varZero", "varZero2", "varRec"} -> "CTOR03" [] OTHER -> "none"
+                 [] s \in {"new", "new2", "newRec"} -> "CTOR02" [] s \in {"varZero", "varZero2", "varRec", "varGroup"} -> "CTOR03" [] OTHER -> "none"
 OnT2(s) == s \in {"lit2", "new2", "varZero2", "nestNewInLit2", "litRec", "newRec", "varRec"}   \* not a type NewT / MakeT construct
 
 Verdict(c, ann, pkg) ==
@@ -159,7 +161,8 @@ VisitVerdict(c) ==
       exempt == ((ownPkg /\ cur \in ctorsOfType) \/ twinExempt) /\ ~("LastCtorLineOnly" \in Deviations /\ prog.ann.csp = 6 /\ cur = "NewT" /\ ~OnT2(c.stmt))
       \* PtrAliasIsValue: a variable whose type is an alias of a pointer type is taken for an instance
       code2 == IF "PtrAliasIsValue" \in Deviations /\ c.stmt = "varPtr" /\ c.sp = "ptralias" THEN "CTOR03"
-               ELSE IF "GroupDocLeaks" \in Deviations /\ c.stmt = "litTG" THEN "CTOR01" ELSE code
+               ELSE IF "GroupDocLeaks" \in Deviations /\ c.stmt = "litTG" THEN "CTOR01"
+               ELSE IF "VarFlagClobbered" \in Deviations /\ c.stmt = "varGroup" THEN "none" ELSE code
   IN IF prog.ann.ctors = <<>> \/ code2 = "none" \/ ~Seen(c) \/ exempt THEN "none" ELSE code2
 
 Visit ==
